@@ -76,6 +76,7 @@ package logger
 //@   ensures fiveHundred: errorsSent == old(errorsSent) + ite(panicSeen && pval != any(http.ErrAbortHandler) && statusAtRecover == 0, 1, 0)
 //@   ensures fiveHundred.status: panicSeen && pval != any(http.ErrAbortHandler) && statusAtRecover == 0 ==> lastErrorCode == 500 && store.W.Status == 500
 //@   ensures contained: !panicking
+//@   ghost before call SplitHostPort assert ip.source: arg0 == store.R.RemoteAddr
 //@   ghost before call Handle assert beg.record: recLevel(r) == 4 && recN(r) == 5 && attrIs(r, 0, "tag", strVal("REQ_BEG")) && attrIs(r, 1, "ip", strVal(remoteIP)) && attrIs(r, 2, "method", strVal(store.R.Method)) && attrIs(r, 3, "path", strVal(store.R.RequestURI)) && attrIs(r, 4, "tid", strVal(bytesText(store.id)))
 //@   ghost after call Handle set begs = begs + 1
 //@   ghost after call Handle set begIP = remoteIP
